@@ -183,9 +183,8 @@ func uniqueIds(r *rep.Report) {
 			return
 		}
 		seen[id] = true
-		if i%2 == 1 {
-			l.RemFact(drv.Ctx(), id)
-		}
+		// remove it again at once: linear state scans every fact on each removal
+		l.RemFact(drv.Ctx(), id)
 	}
 	r.Count("bulk_generated_ids_distinct", len(seen))
 }
